@@ -40,7 +40,11 @@ CFG = dict(
           "(quick ~9,300 operations: 4,600 distinct adds, 4,300 removals of present ranges in random order, every removed range probed right after "
           "its removal and again at the end; thorough ~57,000 operations) which is judged on the Go side by the specification only - a plain map of live "
           "(network, prefix length) keys, Contains(ip) <=> exists n, live[(ip & mask n, n)] - as VIOL lines, NOT replayed in the extracted model "
-          "(list-based sets make that quadratic)"),
+          "(list-based sets make that quadratic). PLUS 'repeated lookup across N updates' histories: Contains(a); exactly N successful updates, one of which "
+          "changes a's membership (first / middle / last), the rest unrelated (Add X / Remove X pairs, removals of an absent range); Contains(a) again with no "
+          "other address looked up in between, then a twice in a row and a / b alternating; N in {1,2,255,256,257,65535,65536,65537,131072} (thorough: also 2^24), "
+          "list mode and map mode, 4- and 16-byte probes; the unrelated updates are shipped run-length encoded ('L' lines, '*n*obs,obs') and expanded by the driver, "
+          "so the extracted model and specification judge every answer (these lines are not sampled for the vm_compute cross-check)"),
     trusted_base=[HARNESS_TB, EXTRACT_TB,
                   "Lib/NetIP.v is my reading of net.IP.To4, net.IPMask.Size and binary.BigEndian.Uint32 (Go standard library); "
                   "it is exercised against the real functions through every Add/Remove/Contains of the harness"],
